@@ -453,7 +453,7 @@ fn error_runs(ctx: &mut Ctx, rng: &mut Rng, dir: &Path) {
         }
     }
     // unknown / garbled problem strings
-    for bad in ["SE-", "-ST", "SEST", "DC--CO", "XX-ST", "SE-XX", "SE-CO-", "SE_CO", " SE-GR", "DC-COO", "EE-PR"] {
+    for bad in ["SE-", "-ST", "SEST", "DC--CO", "XX-ST", "SE-XX", "SE-CO-", "SE_CO", " SE-GR", "DC-COO", "EE-PR", "DC-CO-x", "SE-ST--", "DS-PR-DS-PR", "se-gr-", "SE-GR "] {
         if rng.pct(45) {
             cases.push(("unknown-problem", base(bad, Some(&some_arg))));
         }
@@ -468,6 +468,10 @@ fn error_runs(ctx: &mut Ctx, rng: &mut Rng, dir: &Path) {
     };
     for b in bad_args {
         cases.push(("unknown-argument", base(&dprob, Some(&b))));
+        // an unknown argument is an error whatever the problem (a *valid* superfluous -a for SE is not)
+        if rng.pct(50) {
+            cases.push(("unknown-argument-with-SE-problem", base(&format!("SE-{}", sem), Some(&b))));
+        }
     }
     {
         // empty argument value
@@ -515,6 +519,8 @@ fn error_runs(ctx: &mut Ctx, rng: &mut Rng, dir: &Path) {
             ("missing-argument", vec!["-f".into(), good.clone(), "-p".into(), dprob.clone()]),
             ("unknown-argument", vec!["-f".into(), good.clone(), "-p".into(), dprob.clone(), "-a".into(), (n + 1).to_string()]),
             ("unknown-argument", vec!["-f".into(), good.clone(), "-p".into(), dprob.clone(), "-a".into(), "0".into()]),
+            ("unknown-argument-with-SE-problem", vec!["-f".into(), good.clone(), "-p".into(), format!("SE-{}", sem), "-a".into(), (n + 1).to_string()]),
+            ("unknown-problem", vec!["-f".into(), good.clone(), "-p".into(), "DC-CO-x".into(), "-a".into(), "1".into()]),
             ("unknown-option", vec!["-f".into(), good.clone(), "-p".into(), "SE-GR".into(), "--frobnicate".into()]),
         ];
         let (bytes, _) = gen_listed_illformed(rng, true);
